@@ -316,6 +316,29 @@ func VerifHarness_C16_O5() {
 			verifAssert("same-blocks-whatever-the-store", verifSameBlock(alt.blocks[k], ref.blocks[k]))
 		}
 	}
+	// rounds: same witnesses, same fame, same received events
+	verifAssert("same-last-round-whatever-the-store", bst.LastRound() == ref.store.LastRound())
+	for r := 0; r <= ref.store.LastRound(); r++ {
+		a, err1 := ref.store.GetRound(r)
+		b, err2 := bst.GetRound(r)
+		if err1 != nil || err2 != nil {
+			verifAssert("same-rounds-exist-whatever-the-store", (err1 != nil) == (err2 != nil))
+			continue
+		}
+		same := len(a.CreatedEvents) == len(b.CreatedEvents) && len(a.ReceivedEvents) == len(b.ReceivedEvents)
+		for x, re := range a.CreatedEvents {
+			o, ok := b.CreatedEvents[x]
+			if !ok || o.Witness != re.Witness || o.Famous != re.Famous {
+				same = false
+			}
+		}
+		for i := range a.ReceivedEvents {
+			if same && a.ReceivedEvents[i] != b.ReceivedEvents[i] {
+				same = false
+			}
+		}
+		verifAssert("same-witnesses-fame-and-received-events-whatever-the-store", same)
+	}
 	if verifChoice("closeAndReopen", 2) == 1 {
 		if err := bst.Close(); err != nil {
 			panic(err)
